@@ -117,3 +117,28 @@ CHECKS["C11"] = {"pkg": "ipamsim", "test": "TestC11", "level": "exploration",
             "Non-trivial = >=3 distinct owner kinds among the allocations and >=2 pages.",
     "assumptions": ["names are DNS-1123 (no '_'), pool names are Pool object names", "fake API server; allocations made through the real IPAM"],
     "floors": {"multi_page": 0.3, "three_owner_kinds": 0.2}}
+
+E2_ASSUME = ["recording fake CNI plugin binaries executed through the real invoke.ExecPlugin path; results are a function of the network name",
+             "fake kube client serving the generated pods; cniutil's constant state directory /var/lib/cni/galaxy with process-unique container ids",
+             "requests of one container are sequential (kubelet serialises them); containers may run concurrently"]
+CHECKS["C12"] = {"pkg": "galaxysim", "test": "TestC12", "level": "fault_enumeration",
+    "extra_builds": [{"pkg": "cmd/fakecni", "out": "fakecni"}],
+    "quick": {"checks": 500, "timeout": 900}, "thorough": {"checks": 24000, "shards": 16, "timeout": 2400},
+    "rule": "rapid draws a static configuration (1-4 networks: inline with name, inline keyed by type, .conf files in a conf dir, .conflist; "
+            "DefaultNetworks; optional ENIIPNetwork), 1-3 pods (networks annotation absent / comma form ns/net@if / JSON form; ENI resource; "
+            "extended-args annotation), a request sequence for up to 2 containers per pod (one ADD each, then DELs incl. repeated and retried "
+            "ones; sequential or concurrent across containers) and 0-4 scripted plugin failures (network x ADD/DEL x n-th call). Oracle: a "
+            "reference model of selection, order, interface names, rollback (DEL i..0 after a failing i-th ADD), remembered failed DELs and "
+            "no-op repeated DEL predicts the exact invocation log and every request outcome; each plugin's stdin must equal the static "
+            "network configuration (+ prevResult of the same container's previous delegate on ADD) and its args the kubelet args + that "
+            "pod's extended args. Non-trivial = >=2 networks and (a failure hit or >=2 containers interleaved).",
+    "assumptions": E2_ASSUME, "floors": {"multi_network": 0.3, "failure_injected": 0.1}}
+CHECKS["C13"] = {"pkg": "galaxysim", "test": "TestC13", "level": "exploration",
+    "extra_builds": [{"pkg": "cmd/fakecni", "out": "fakecni"}],
+    "quick": {"checks": 600, "timeout": 900}, "thorough": {"checks": 32000, "shards": 16, "timeout": 2400},
+    "rule": "rapid draws a pool (mask /8-/30, gateway anywhere in the subnet, VLAN 0-4094), a statefulset or deployment pod requesting k=0-4 "
+            "ranges, and 1-2 networks. Real Filter+Bind on the simulated cluster -> the applied binding annotation is put on the pod served "
+            "to the real galaxy daemon -> ADD -> the fake plugin's recorded CNI_ARGS is decoded with the plugins' own cni/ipam.Allocate -> "
+            "(address, prefix length, gateway, VLAN) must equal, in order, what the FloatingIP objects and the pool say, for every network. "
+            "Non-trivial = k>=2 or VLAN != 0 or mask != /24.",
+    "assumptions": E2_ASSUME + ["engine E1 (simulated cluster) provides the IPAM side"], "floors": {"k_ge_2": 0.2}}
